@@ -225,7 +225,7 @@ theorem spliceOut_spec {f : Forest} (w : f.W) {h : Nat} {t : HTree} (hg : f.get?
       have := i1 a
       rw [handles_eq, hth] at this
       simp only [List.count_cons, List.count_nil] at this ⊢
-      rw [handlesList_append, List.count_append]
+      rw [fa_handlesList_append, List.count_append]
       unfold allHandles; omega
     have w' : Forest.W { f with roots := f.roots.filter (fun r => r.handle != h) ++ t.kids } :=
       W_of_count_le w (Nat.le_refl _) (fun a => by
@@ -248,7 +248,7 @@ theorem spliceOut_spec {f : Forest} (w : f.W) {h : Nat} {t : HTree} (hg : f.get?
       have : Forest.value? { f with roots := f.roots.filter (fun r => r.handle != h) ++ t.kids } x =
           f.value? x := by
         show (findList? x (_ ++ _)).map HTree.value = _
-        rw [findList?_append]
+        rw [fa_findList?_append]
         have h3 := i3 x hx
         unfold value? get?
         cases h1 : findList? x (f.roots.filter (fun r => r.handle != h)) with
